@@ -51,6 +51,7 @@ import (
 	"github.com/drand/drand/v2/crypto"
 	"github.com/drand/drand/v2/internal/chain"
 	"github.com/drand/drand/v2/internal/dkg"
+	"github.com/drand/drand/v2/internal/fs"
 	"github.com/drand/drand/v2/internal/net"
 	"github.com/drand/drand/v2/internal/test"
 	"github.com/drand/drand/v2/internal/vlib"
@@ -366,6 +367,10 @@ func vsyNewWorld(t *testing.T, sch *crypto.Scheme, rec *vsyRec, rng *rand.Rand) 
 	add("Share", "GroupSecret:default", sec)
 	add("Share", "GroupSecret:b", secB)
 
+	// internal/drand-cli checkMigration (drand start) and keygenCmd create the multibeacon folder before the daemon
+	if fs.CreateSecureFolder(filepath.Join(w.folder, common.MultiBeaconFolder)) == "" {
+		return nil, errors.New("cannot create the multibeacon folder")
+	}
 	lg := dlog.New(&vsySink{rec: rec, key: "log/line"}, dlog.DebugLevel, true)
 	cfg := NewConfig(lg,
 		WithConfigFolder(w.folder),
@@ -654,7 +659,7 @@ func (w *vsyWorld) call(key, id string) bool {
 	case "control/Status":
 		do(func() { r, err := w.dd.Status(ctx, &drand.StatusRequest{Metadata: md()}); w.rec.addMsg(key, r, err) })
 	case "control/ListSchemes":
-		do(func() { r, err := w.dd.ListSchemes(ctx, &drand.ListSchemesRequest{Metadata: md()}); w.rec.addMsg(key, r, err) })
+		do(func() { r, err := w.dd.ListSchemes(ctx, &drand.ListSchemesRequest{}); w.rec.addMsg(key, r, err) })
 	case "control/PublicKey":
 		do(func() { r, err := w.dd.PublicKey(ctx, &drand.PublicKeyRequest{Metadata: md()}); w.rec.addMsg(key, r, err) })
 	case "control/GroupFile":
